@@ -12,4 +12,4 @@ vf.main_wrapper(lambda: swprop.run(
     ["faults on explicitly requested paths' initial stat", "lazy-stat and .gitignore-open faults together with fatal-on-error (whether they count as traversal failures is unspecified)",
      "partial directory listings on file systems without ReadDirFile (the fallback lists in one call)"],
     ["a failing size lookup is surfaced in the status of every extractor that requires the file and the file is not extracted"],
-    sanity=(("ScanWalk-sanity.cfg", "SanityExtract"), ("ScanWalk-sanity2.cfg", "SanityFailed"))))
+    sanity=(("ScanWalk-sanity.cfg", "SanityExtract"), ("ScanWalk-sanity2.cfg", "SanityFailed")), level="fault_enumeration"))
